@@ -1,3 +1,4 @@
+@neg.deleter
 def spec(self):
     self._neg = nn.ParameterList()
     self._neg_cache.cache_clear()
